@@ -729,7 +729,8 @@ def r_clauses(R, cs):
             out.append({"left": r_fop(R, c[1]), "operator": c[2], "right": r_fop(R, c[3])})
         else:
             out.append({"where": r_clauses(R, c[1]), "gate_type": R.rng.choice(S.GATES)})
-    return out
+    # filter clauses are order-free
+    return R.maybe_shuffle(out)
 
 
 def r_var(R, d):
@@ -756,7 +757,7 @@ def r_app(R, a):
 def r_trav(R, t):
     fe = {"as": R.var_name(t["as"])}
     if t["vars"] or R.rng.random() < 0.5:
-        fe["variables"] = [r_var(R, d) for d in t["vars"]]
+        fe["variables"] = R.maybe_shuffle([r_var(R, d) for d in t["vars"]])
     if t["trav"] or R.rng.random() < 0.5:
         fe["traverse"] = [r_trav(R, x) for x in t["trav"]]
     fe["apply"] = [r_app(R, a) for a in t["apply"]]
@@ -770,7 +771,7 @@ def render_pipelines(R, doc):
     out = []
     for pl in pls:
         e = {"id": pl["id"], "name": "pipeline %d" % pl["name"], "object_promise": R.ref(pl["promise"]),
-             "variables": [r_var(R, d) for d in pl["vars"]]}
+             "variables": R.maybe_shuffle([r_var(R, d) for d in pl["vars"]])}
         if pl["trav"] or R.rng.random() < 0.5:
             e["traverse"] = [r_trav(R, t) for t in pl["trav"]]
         if pl["apply"] or R.rng.random() < 0.5:
@@ -779,7 +780,7 @@ def render_pipelines(R, doc):
         if R.descriptive and R.rng.random() < 0.5:
             e["context"] = R.rng.choice(["TEMPLATE", "RUNTIME"])
         out.append(e)
-    doc["pipelines"] = out
+    doc["pipelines"] = R.maybe_shuffle(out)
 
 
 if render_pipelines not in S.RENDER_HOOKS:
@@ -1040,6 +1041,35 @@ def p_filter_ill_typed(rng, s, b):
         if bad:
             lst[i] = ("cmp", l, rng.choice(bad), rr)
             return "filter clause at depth %d position %d: %s %s %s" % (depth, i, tl, lst[i][2], tr)
+    return None
+
+
+@M.mutator("C08")
+def p_filter_ill_typed_beside_group(rng, s, b):
+    """An ill-typed comparison that is a SIBLING of a nested condition group in the same where array (the group is
+    created from two copies of a well-typed clause when the filter has none)."""
+    c = _pick_instr(rng, s, b, "app", lambda pl, ins, st, info: ins[2]["step"] is not None and ins[2]["step"][0] == "filter" and info[0] is not None)
+    if c is None:
+        return None
+    pl, ins, before, info, final = c
+    ctx, own, sc, r = pipe_ctx(s, pl), pl["promise"][1], ins[1], info[0]
+    clauses = ins[2]["step"][1]
+    if not any(cl[0] == "cmp" for cl in clauses):
+        return None
+    if not any(cl[0] == "nest" for cl in clauses):
+        base = rng.choice([cl for cl in clauses if cl[0] == "cmp"])
+        clauses.insert(rng.randrange(len(clauses) + 1), ("nest", [base, base]))
+    idx = [i for i, cl in enumerate(clauses) if cl[0] == "cmp"]
+    rng.shuffle(idx)
+    for i in idx:
+        _, l, op, rr = clauses[i]
+        tl, tr = fop_type(s, ctx, own, before, sc, r, l), fop_type(s, ctx, own, before, sc, r, rr)
+        if tl is None or tr is None:
+            continue
+        bad = [o for o in OPS if not py_cmp(tl, o, tr) and not _kf_cmp(tl, o, tr)]
+        if bad:
+            clauses[i] = ("cmp", l, rng.choice(bad), rr)
+            return "ill-typed filter clause at position %d beside a nested condition group: %s %s %s" % (i, tl, clauses[i][2], tr)
     return None
 
 
